@@ -230,3 +230,140 @@ package stdlib
 //@   let a (val_at args 0)
 //@   ensures[C11] ok: (and (= err nil.Any) (wf_deep ret) (is_number_ty (vty ret)) (not (is_null ret)))
 //@   ensures[C14] value: (and (kn ret) (= (num_i ret) (num_i a)) (=> (= (num_i a) 0) (= (num_r ret) (rnd (num_p a) (to_real (to_int (num_r a)))))))
+//
+// ---- C13: index arithmetic of the sequence functions ---------------------------------------------
+// element(list, i): the element at i modulo the length (mathematical modulo: negative indices wrap
+// around from the end), for lists and tuples; fails exactly when the index is not a whole number that
+// fits an int or the sequence is empty. The Impl callback's requires clause states what the Type
+// callback establishes with a nil error (Function.Call runs Impl only after that).
+//@ func stdlib.ElementFunc.Type
+//@   tags C11 C13
+//@   spec_args stdlib.ElementFunc
+//@   let c (val_at args 0)
+//@   let k (val_at args 1)
+//@   let t (vty c)
+//@   let ix (bf.int64 (bf_of k))
+//@   ensures[C13] domain: (= (= result.1 nil.Any) (or (is_list_ty t) (and (is_tuple_ty t) (or (not (is_known k)) (and (= (bf.acc64 (bf_of k)) 0) (> (tuple_len t) 0))))))
+//@   ensures[C13] list: (=> (is_list_ty t) (= result.0 (elem_ty t)))
+//@   ensures[C13] tuple: (=> (and (is_tuple_ty t) (is_known k) (= result.1 nil.Any)) (= result.0 (tuple_at t (mod ix (tuple_len t)))))
+//@   ensures[C11] ok: (=> (= result.1 nil.Any) (wf_ty result.0))
+//
+//@ func stdlib.ElementFunc.Impl
+//@   tags C11 C13
+//@   spec_args stdlib.ElementFunc
+//@   let c (unmark (val_at args 0))
+//@   let k (val_at args 1)
+//@   let t (vty c)
+//@   let ix (bf.int64 (bf_of k))
+//@   let n (Slice.len (pl_seq c))
+//@   requires (and (wf_ty retType) (or (is_list_ty t) (is_tuple_ty t)))
+//@   ensures[C11] ok: (=> (= result.1 nil.Any) (wf_deep result.0))
+//@   ensures[C13] domain: (=> (is_known c) (= (= result.1 nil.Any) (and (= (bf.acc64 (bf_of k)) 0) (> n 0))))
+//@   ensures[C13] value: (=> (and (is_known c) (= result.1 nil.Any)) (= (inner_v result.0) (strip (pl_seq_at c (mod ix n)))))
+//@   ensures[C13] elty_list: (=> (and (is_known c) (= result.1 nil.Any) (is_list_ty t)) (= (vty result.0) (elem_ty t)))
+//@   ensures[C13] elty_tuple: (=> (and (is_known c) (= result.1 nil.Any) (is_tuple_ty t)) (= (vty result.0) (tuple_at t (mod ix (tuple_len t)))))
+//@   ensures[C13] marks: (=> (and (is_known c) (= result.1 nil.Any)) (forall ((m Any)) (! (=> (select (marks_of (val_at args 0)) m) (select (marks_of result.0) m)) :pattern ((select (marks_of result.0) m)))))
+//
+// slice(list, start, end): the elements start..end-1 in order; fails exactly when an index is not a whole
+// number fitting an int or 0 <= start <= end <= length does not hold (length known: tuples, known lists).
+//@ func stdlib.sliceIndexes
+//@   tags C13
+//@   requires (and (slice.ok args) (= (Slice.len args) 3) (wf_deep (val_at args 0)) (wf_deep (val_at args 1)) (wf_deep (val_at args 2)))
+//@   requires (and (not (is_marked (val_at args 1))) (not (is_marked (val_at args 2))) (is_number_ty (vty (val_at args 1))) (is_number_ty (vty (val_at args 2))) (not (is_null (val_at args 1))) (not (is_null (val_at args 2))))
+//@   requires (and (or (is_list_ty (vty (val_at args 0))) (is_tuple_ty (vty (val_at args 0)))) (not (is_null (val_at args 0))))
+//@   let c (unmark (val_at args 0))
+//@   let t (vty c)
+//@   let a (val_at args 1)
+//@   let b (val_at args 2)
+//@   let s (bf.int64 (bf_of a))
+//@   let e (bf.int64 (bf_of b))
+//@   let lk (or (is_tuple_ty t) (is_known c))
+//@   let n (ite (is_tuple_ty t) (tuple_len t) (Slice.len (pl_seq c)))
+//@   ensures[C13] domain: (=> (and lk (is_known a) (is_known b)) (= (= result.3 nil.Any) (and (= (bf.acc64 (bf_of a)) 0) (= (bf.acc64 (bf_of b)) 0) (<= 0 s) (<= s e) (<= e n))))
+//@   ensures[C13] value: (=> (and (is_known a) (is_known b) (= result.3 nil.Any)) (and (= result.0 s) (= result.1 e) result.2))
+//@   ensures[C13] known: (=> (= result.3 nil.Any) (= result.2 (and (is_known a) (is_known b))))
+//@   ensures[C13] bounds: (=> (= result.3 nil.Any) (and (<= 0 result.0) (<= 0 result.1) (=> result.2 (<= result.0 result.1)) (=> lk (and (<= result.0 n) (<= result.1 n)))))
+//
+//@ func stdlib.SliceFunc.Type
+//@   tags C11 C13
+//@   spec_args stdlib.SliceFunc
+//@   let c (unmark (val_at args 0))
+//@   let t (vty c)
+//@   let a (val_at args 1)
+//@   let b (val_at args 2)
+//@   let s (bf.int64 (bf_of a))
+//@   let e (bf.int64 (bf_of b))
+//@   let lk (or (is_tuple_ty t) (is_known c))
+//@   let n (ite (is_tuple_ty t) (tuple_len t) (Slice.len (pl_seq c)))
+//@   let seq (or (is_list_ty t) (is_tuple_ty t))
+//@   ensures[C13] domain: (=> (and lk (is_known a) (is_known b)) (= (= result.1 nil.Any) (and seq (= (bf.acc64 (bf_of a)) 0) (= (bf.acc64 (bf_of b)) 0) (<= 0 s) (<= s e) (<= e n))))
+//@   ensures[C13] notseq: (=> (not seq) (not (= result.1 nil.Any)))
+//@   ensures[C13] list: (=> (and (is_list_ty t) (= result.1 nil.Any)) (= result.0 t))
+//@   ensures[C13] tuple: (=> (and (is_tuple_ty t) (is_known a) (is_known b) (= result.1 nil.Any)) (and (is_tuple_ty result.0) (= (tuple_len result.0) (- e s)) (forall ((j Int)) (! (=> (and (trig j) (<= 0 j) (< j (- e s))) (= (tuple_at result.0 j) (tuple_at t (+ s j)))) :pattern ((trig j))))))
+//@   ensures[C13] tuple_unknown: (=> (and (is_tuple_ty t) (not (and (is_known a) (is_known b))) (= result.1 nil.Any)) (is_dyn_ty result.0))
+//
+//@ func stdlib.SliceFunc.Impl
+//@   tags C11 C13
+//@   spec_args stdlib.SliceFunc
+//@   let c (unmark (val_at args 0))
+//@   let t (vty c)
+//@   let a (val_at args 1)
+//@   let b (val_at args 2)
+//@   let s (bf.int64 (bf_of a))
+//@   let e (bf.int64 (bf_of b))
+//@   let n (Slice.len (pl_seq c))
+//@   let r (unmark result.0)
+//@   requires (and (wf_ty retType) (or (is_dyn_ty retType) (and (is_list_ty t) (= retType t)) (and (is_tuple_ty t) (is_tuple_ty retType))))
+//@   ensures[C13] domain: (=> (not (is_dyn_ty retType)) (= (= result.1 nil.Any) (and (= (bf.acc64 (bf_of a)) 0) (= (bf.acc64 (bf_of b)) 0) (<= 0 s) (<= s e) (<= e n))))
+//@   ensures[C13] length: (=> (and (not (is_dyn_ty retType)) (= result.1 nil.Any)) (and (kn r) (is_seq_payload r) (= (Slice.len (pl_seq r)) (- e s))))
+//@   ensures[C13,@lean] value: (=> (and (not (is_dyn_ty retType)) (= result.1 nil.Any)) (forall ((j Int)) (! (=> (and (trig j) (<= 0 j) (< j (- e s))) (= (pl_seq_at r j) (pl_seq_at c (+ s j)))) :pattern ((trig j)))))
+//@   ensures[C13] type_list: (=> (and (is_list_ty retType) (= result.1 nil.Any)) (and (is_list_ty (vty r)) (= (elem_ty (vty r)) (elem_ty t))))
+//@   ensures[C13] type_tuple: (=> (and (is_tuple_ty retType) (= result.1 nil.Any)) (and (is_tuple_ty (vty r)) (= (tuple_len (vty r)) (- e s)) (forall ((j Int)) (! (=> (and (trig j) (<= 0 j) (< j (- e s))) (= (tuple_at (vty r) j) (tuple_at t (+ s j)))) :pattern ((trig j))))))
+//@   ensures[C13] marks: (=> (= result.1 nil.Any) (forall ((m Any)) (! (=> (select (marks_of (val_at args 0)) m) (select (marks_of result.0) m)) :pattern ((select (marks_of result.0) m)))))
+//
+// reverse(list): element j of the result is element n-1-j of the argument, for lists and tuples (sets are
+// accepted by the function and converted to a list; that case is not under contract because
+// AsValueSlice's assumed contract says nothing about set members).
+//@ func stdlib.ReverseListFunc.Type
+//@   tags C11 C13
+//@   spec_args stdlib.ReverseListFunc
+//@   let t (vty (val_at args 0))
+//@   let n (tuple_len t)
+//@   ensures[C13] domain: (= (= result.1 nil.Any) (or (is_tuple_ty t) (is_list_ty t) (is_set_ty t)))
+//@   ensures[C13] list: (=> (or (is_list_ty t) (is_set_ty t)) (= result.0 (ty_list (elem_ty t))))
+//@   ensures[C13] tuple: (=> (is_tuple_ty t) (and (is_tuple_ty result.0) (= (tuple_len result.0) n) (forall ((j Int)) (! (=> (and (trig j) (<= 0 j) (< j n)) (= (tuple_at result.0 j) (tuple_at t (- (- n 1) j)))) :pattern ((trig j))))))
+//@   loop 1 invariant (and (< (Slice.ptr retTys) 0) (= (Slice.off retTys) 0) (= (Slice.len retTys) (Slice.len argTys)))
+//@   loop 1 invariant (forall ((k Int)) (! (=> (and (<= (- (Slice.len retTys) $i) k) (< k (Slice.len retTys))) (= (select (select $H<Arr<cty.Type>> (Slice.ptr retTys)) k) (ty_at argTys (- (- (Slice.len retTys) 1) k)))) :pattern ((select (select $H<Arr<cty.Type>> (Slice.ptr retTys)) k))))
+//
+//@ func stdlib.ReverseListFunc.Impl
+//@   tags C11 C13
+//@   spec_args stdlib.ReverseListFunc
+//@   let c (unmark (val_at args 0))
+//@   let t (vty c)
+//@   let n (len_int c)
+//@   let r (unmark result.0)
+//@   requires (and (wf_ty retType) (or (and (is_tuple_ty t) (is_tuple_ty retType)) (and (is_list_ty t) (is_list_ty retType) (= (elem_ty retType) (elem_ty t)))))
+//@   ensures[C11] ok: (= result.1 nil.Any)
+//@   ensures[C13,@lean] length: (and (kn r) (is_seq_payload r) (= (Slice.len (pl_seq r)) n))
+//@   ensures[C13,@lean] value: (forall ((j Int)) (! (=> (and (trig j) (<= 0 j) (< j n)) (= (pl_seq_at r j) (pl_seq_at c (- (- n 1) j)))) :pattern ((trig j))))
+//@   ensures[C13,@lean] type_list: (=> (is_list_ty t) (and (is_list_ty (vty r)) (= (elem_ty (vty r)) (elem_ty t))))
+//@   ensures[C13,@lean] type_tuple: (=> (is_tuple_ty t) (and (is_tuple_ty (vty r)) (= (tuple_len (vty r)) n) (forall ((j Int)) (! (=> (and (trig j) (<= 0 j) (< j n)) (= (tuple_at (vty r) j) (tuple_at t (- (- n 1) j)))) :pattern ((trig j))))))
+//@   ensures[C13] marks: (forall ((m Any)) (! (=> (select (marks_of (val_at args 0)) m) (select (marks_of result.0) m)) :pattern ((select (marks_of result.0) m))))
+//@   loop 1 invariant (and (< (Slice.ptr outVals) 0) (= (Slice.off outVals) 0) (= (Slice.len outVals) (Slice.len inVals)))
+//@   loop 1 invariant (forall ((k Int)) (! (=> (and (<= (- (Slice.len outVals) $i) k) (< k (Slice.len outVals))) (= (select (select $H<Arr<cty.Value>> (Slice.ptr outVals)) k) (vals_rel inVals (- (- (Slice.len outVals) 1) k)))) :pattern ((select (select $H<Arr<cty.Value>> (Slice.ptr outVals)) k))))
+//
+// coalescelist(lists...): the first argument that is a known, non-null, non-empty sequence, provided every
+// argument before it is known and null or empty; unknown as soon as an unknown argument is met first; an
+// error exactly when every argument is known and null or empty. (The requires clause is what the Type
+// callback checks before it answers without error: every argument up to the first unknown one is a list
+// or a tuple.)
+//@ func stdlib.CoalesceListFunc.Impl
+//@   tags C11 C13
+//@   spec_args stdlib.CoalesceListFunc
+//@   let n (Slice.len args)
+//@   requires (wf_ty retType)
+//@   requires (forall ((j Int)) (! (=> (and (trig j) (<= 0 j) (< j n) (forall ((i Int)) (! (=> (and (trig i) (<= 0 i) (<= i j)) (is_known (val_at args i))) :pattern ((trig i))))) (or (is_list_ty (vty (val_at args j))) (is_tuple_ty (vty (val_at args j))))) :pattern ((trig j))))
+//@   ensures[C13] fails: (= (not (= result.1 nil.Any)) (forall ((j Int)) (! (=> (and (trig j) (<= 0 j) (< j n)) (and (is_known (val_at args j)) (or (is_null (val_at args j)) (= (len_int (val_at args j)) 0)))) :pattern ((trig j)))))
+//@   ensures[C13] first: (=> (and (= result.1 nil.Any) (is_known result.0)) (exists ((j Int)) (! (and (trig j) (<= 0 j) (< j n) (= result.0 (val_at args j)) (kn (val_at args j)) (> (len_int (val_at args j)) 0) (forall ((i Int)) (! (=> (and (trig i) (<= 0 i) (< i j)) (and (is_known (val_at args i)) (or (is_null (val_at args i)) (= (len_int (val_at args i)) 0)))) :pattern ((trig i))))) :pattern ((trig j)))))
+//@   ensures[C13] unknown: (=> (and (= result.1 nil.Any) (not (is_known result.0))) (and (= (vty result.0) retType) (exists ((j Int)) (! (and (trig j) (<= 0 j) (< j n) (not (is_known (val_at args j))) (forall ((i Int)) (! (=> (and (trig i) (<= 0 i) (< i j)) (and (is_known (val_at args i)) (or (is_null (val_at args i)) (= (len_int (val_at args i)) 0)))) :pattern ((trig i))))) :pattern ((trig j))))))
+//@   loop 1 invariant (forall ((j Int)) (! (=> (and (trig j) (<= 0 j) (< j $i)) (and (is_known (val_at args j)) (or (is_null (val_at args j)) (= (len_int (val_at args j)) 0)))) :pattern ((trig j))))
